@@ -23,6 +23,14 @@ def gen_c02(ctx):
                 yield line(c0, start(rng, cfg) + [op_get(rng, cfg, cancel=cancel), op_simple(rng, cfg, "noop", 200)])
                 cfg = Cfg(rng, "C02", mode=mode, rfc=rfc, ttype="I", ip=4); c0 = str(cfg)
                 yield line(c0, start(rng, cfg) + [op_put(rng, cfg, cancel=cancel), op_simple(rng, cfg, "noop", 200)])
+    # every RFC 959 completion reply of an accepted (not cancelled) transfer or listing, positive and negative, then another call
+    for mode in "pa":
+        for rfc in (0, 1):
+            for comp in (226, 250, 426, 425, 451, 551, 552):
+                cfg = Cfg(rng, "C02", mode=mode, rfc=rfc, ttype="I", ip=4); c0 = str(cfg)
+                yield line(c0, start(rng, cfg) + [op_get(rng, cfg, completion=comp, size=100), op_simple(rng, cfg, "noop", 200),
+                                                  op_put(rng, cfg, completion=comp, size=100), op_simple(rng, cfg, "noop", 200),
+                                                  op_list(rng, cfg, completion=comp), op_simple(rng, cfg, "noop", 200)])
     # greeting 120 + 220 with and without credentials (repaired defect F2)
     for user in (None, (b"u", b"p")):
         cfg = Cfg(rng, "C02"); c0 = str(cfg)
